@@ -5,8 +5,9 @@
 set -u
 ID=$1; V=$2
 SRC=/tmp/seed/$ID-out/$V
-WT=/tmp/confirm-wt
-export CARGO_TARGET_DIR=/tmp/confirm-target CARGO_NET_OFFLINE=true
+SLOT=${SLOT:-}
+WT=/tmp/confirm-wt$SLOT
+export CARGO_TARGET_DIR=/tmp/confirm-target$SLOT CARGO_NET_OFFLINE=true
 if [ ! -d $WT ]; then git -C /repo worktree add -q --detach $WT HEAD; fi
 cd $WT && git checkout -q --detach $(git -C /repo rev-parse HEAD) && git checkout -q -- . && git clean -fdq
 PATCHF=${PATCHF:-$SRC/patch.diff}
